@@ -376,7 +376,7 @@ end
 /-! ## the hypotheses are satisfiable, the conclusions are not vacuous -/
 
 def toyCfg (sender : Bool) : Cfg :=
-  { isSender := sender, sendThis := [1, 2], expectThis := [7, 8, 9], relayHs := [5], recLayer := fun b => some b }
+  { isSender := sender, sendThis := [1, 2], expectThis := [7, 8, 9], relayHs := [5], recLayer := fun b => some b, recRest := fun b => b }
 
 example : Distinct (toyCfg true) := ⟨by decide, by decide, by decide, by decide⟩
 
